@@ -16,7 +16,7 @@ import time
 from pv.core import InfraError
 
 
-class Hang(Exception):
+class Hang(BaseException):
     """The client call can never complete: every party is waiting on an empty queue."""
 
 
@@ -755,7 +755,7 @@ class DetSession:
         if task is None or not self.tracing:
             while len(self.sock.s2c) < 4:
                 if not self._serve_one():
-                    raise InfraError("deterministic session (free running): nothing to answer")
+                    raise Hang("client waits for a response and no request is outstanding")
             return
         self._park(task, "rrecv")
         # the packet is there (scheduler guarantees it): remember whose answer it is
@@ -838,6 +838,25 @@ class DetSession:
         if rd.park == "rdisp":
             return rd.num in self.fobj._prefetch_extents
         return rd.park == "rsend"
+
+    def pending_requests(self):
+        """number of complete request packets the server has not answered yet"""
+        b, n, i = self.sock.c2s, 0, 0
+        while len(b) - i >= 4:
+            size = struct.unpack(">I", bytes(b[i:i + 4]))[0]
+            if len(b) - i < 4 + size:
+                break
+            n += 1
+            i += 4 + size
+        return n
+
+    def queued_responses(self):
+        b, n, i = self.sock.s2c, 0, 0
+        while len(b) - i >= 4:
+            size = struct.unpack(">I", bytes(b[i:i + 4]))[0]
+            n += 1
+            i += 4 + size
+        return n
 
     def _server_enabled(self):
         b = self.sock.c2s
